@@ -648,4 +648,12 @@ property C11: (*ParagraphReader).decodeClearsig, NewParagraphReader, (*Paragraph
 // Build-Depends, Build-Depends-Arch, Build-Depends-Indep: dependency fields; Source: scalar)
 property C19: layout DSC
 
+// C18: the control-paragraph reader, the clearsign front end and the checksum / file-list line parsers are total
+// (no panic, termination, a value xor an error, frames) - the same obligations as for C07 / C10 / C11, listed here
+// because C18 names control/parse.go, control/filehash.go and control/changes.go
+property C18: lemma idxOf_prefix, (*ParagraphReader).Next, (*ParagraphReader).All, (*Paragraph).Set, (*Paragraph).Update,
+  (*ParagraphReader).decodeClearsig, NewParagraphReader, (*FileHash).unmarshalControl, (*MD5FileHash).UnmarshalControl,
+  (*SHA1FileHash).UnmarshalControl, (*SHA256FileHash).UnmarshalControl, (*SHA512FileHash).UnmarshalControl,
+  (*FileListChangesFileHash).UnmarshalControl
+
 @*/
